@@ -12,10 +12,9 @@
    (the known deviation, findings.txt).  [one_run p]: all '*' of the pattern are adjacent. *)
 From Coq Require Import Lia.
 From GixV.Base Require Import Bytes BytesFacts Outcome.
-From GixV.C36 Require Import Model Spec ProofsBytes ProofsBracket ProofsMain ProofsEarly ProofsTop ProofsShortcut.
+From GixV.C36 Require Import Model Spec ProofsBytes ProofsBracket ProofsMain ProofsEarly ProofsTop ProofsShortcut ProofsAbort ProofsAbort3 ProofsFull.
 
-(* The full statement of the property (proved below for one-run patterns; for the others up to the
-   early exit of git's star loop, see wildmatch_is_git_modulo_early_exit_partial). *)
+(* The full statement of the property (proved below: wildmatch_is_git). *)
 Definition wildmatch_is_git_full_statement : Prop :=
   forall cf pn p t, nul_free p = true -> known_icase cf p = false -> stars p < RECURSION_LIMIT ->
     wildmatch cf pn p t = git_wildmatch cf pn p t.
@@ -43,6 +42,24 @@ Theorem wildmatch_is_git_modulo_early_exit_partial : forall cf pn p t,
   nul_free p = true -> known_icase cf p = false -> stars p < RECURSION_LIMIT ->
   wildmatch cf pn p t = res_eqb (dowild false cf pn (S (length p)) (S (S (length p))) p t) Match.
 Proof. exact L_lockstep. Qed.
+
+(* THE PROPERTY: for every NUL-free pattern with fewer than 64 stars outside the known case-folding
+   class, every text and all four flag combinations, gix's matcher returns what git's wildmatch returns *)
+Theorem wildmatch_is_git : wildmatch_is_git_full_statement.
+Proof. exact L_full. Qed.
+
+(* the two facts about git's own algorithm that close the gap between the lock-step theorem and the
+   full one: ABORT_ALL is sound (when dowild aborts on a text, no later start of that text matches;
+   [suffix t' t]: t = pre ++ t'), hence dropping the early exit of the star loop never changes
+   git's answer.  Both hold for every pattern and text, with and without WM_PATHNAME / WM_CASEFOLD. *)
+Theorem git_abort_all_is_sound : forall cf pn p t t',
+  beqb (hd0 p) cSTAR = false ->
+  dowild true cf pn (S (length p)) (S (S (length p))) p t = AbortAll -> suffix t' t ->
+  dowild true cf pn (S (length p)) (S (S (length p))) p t' <> Match.
+Proof. exact L_abort_all_sound. Qed.
+Theorem git_early_exit_is_irrelevant : forall cf pn p t,
+  git_wildmatch cf pn p t = res_eqb (dowild false cf pn (S (length p)) (S (S (length p))) p t) Match.
+Proof. exact L_early_exit_irrelevant. Qed.
 
 (* full agreement with git for patterns whose stars are adjacent (`*.c`, `foo*bar`, `a/**/b`, …) *)
 Theorem wildmatch_is_git_one_star_run : forall cf pn p t,
@@ -103,6 +120,16 @@ Example shortcut_hyps_satisfiable :
              has_flag (pmode pt) ENDS_WITH && (negb true || negb (has_slash (bs "src/abc"))) = false /\
              pattern_matches pt false true (bs "src/abc") = true.
 Proof. exists {| ptext := bs "src/a?c"; pmode := 16%N; pfwp := Some 5%nat |}. vm_compute. repeat split; reflexivity. Qed.
+Example abort_hyps_satisfiable :
+  let p := bs "?*b?" in let t := bs "xxb" in
+  beqb (hd0 p) cSTAR = false /\ dowild true false true (S (length p)) (S (S (length p))) p t = AbortAll /\
+  suffix (bs "xb") t.
+Proof. cbv zeta. split; [vm_compute; reflexivity|]. split; [vm_compute; reflexivity|]. exists (bs "x"). reflexivity. Qed.
+Example full_theorem_example :
+  let p := bs "**/*.[ch]" in
+  nul_free p = true /\ known_icase true p = false /\ stars p < RECURSION_LIMIT /\
+  wildmatch true true p (bs "src/A/main.C") = true /\ git_wildmatch true true p (bs "src/A/main.C") = true.
+Proof. vm_compute. repeat split; lia. Qed.
 Example star_free_example :
   wildmatch false true (bs "[[:digit:]]?\*[!a-c]") (bs "7x*d") = true /\
   git_wildmatch false true (bs "[[:digit:]]?\*[!a-c]") (bs "7x*d") = true.
